@@ -434,7 +434,7 @@ def order_blocks(blocks):
     BEFORE `for.body`; cbmc's symex merges states only at forward gotos, so with that layout the code after the loop is executed
     symbolically once per loop-exit state (once per unwinding) instead of once - multiplicative with nesting. Block order is semantically
     irrelevant here: every block is labelled and ends in explicit gotos; the entry block stays first."""
-    if os.environ.get('LL2C_ORDER', 'wto') != 'wto' or len(blocks) < 3: return blocks
+    if os.environ.get('LL2C_ORDER', 'llvm') != 'wto' or len(blocks) < 3: return blocks
     names = [b[0] for b in blocks]; idx = {n: i for i, n in enumerate(names)}
     succ = []
     for (bn, ins) in blocks:
